@@ -7,6 +7,7 @@ From VQ Require Import Proofs.StretchJensen.
 From VQ Require Import Proofs.StretchEntropyFull.
 From VQ Require Import Glue.Pin_fp_C17.
 From VQ Require Import Glue.LfqLossGlue.
+From VQ Require Import Model.Requant Proofs.RequantProofs Glue.RequantGlue.
 Import ListNotations.
 Open Scope R_scope.
 
@@ -162,6 +163,23 @@ Theorem C17_tie_lfq_commit_guard_atoms :
   g_lfq_commit.g_lfq_commit_atoms = ["self_commitment_loss_weight_gt_0_0"; "self_training"].
 Proof. exact (@LfqLossGlue.glue_lfq_commit_guard_atoms). Qed.
 Print Assumptions C17_tie_lfq_commit_guard_atoms.
+
+Theorem C17_inplace_step_vectors_of_final_codebook :
+  forall (step : list (list R) -> list (list R) -> list nat -> list (list R)) 
+         (cb xs : list (list R)) (d : nat) (r : result),
+       forward_from_bindings step o_vq_codebook_calls.o_vq_codebook_calls cb xs = Some r ->
+       r_cb r <> [] ->
+       CoreNearest.shaped d (r_cb r) ->
+       Forall (fun x : list R => Datatypes.length x = d) xs -> consistent xs r CoreNearest.nearest_rel.
+Proof. exact (@RequantGlue.source_forward_consistent). Qed.
+Print Assumptions C17_inplace_step_vectors_of_final_codebook.
+
+Theorem C17_stale_equals_only_when_winners_stable :
+  forall (step : list (list R) -> list (list R) -> list nat -> list (list R)) (cb xs : list (list R)),
+       pass (step cb xs (pass cb xs)) xs = pass cb xs ->
+       stale_forward step cb xs = inplace_forward step cb xs.
+Proof. exact (@RequantProofs.stale_equals_when_winners_stable). Qed.
+Print Assumptions C17_stale_equals_only_when_winners_stable.
 (* The full chain  0 <= mean_i H(p_i) <= H(mean_i p_i) <= ln K  for ANY token distributions, including entries below the clamp eps
    and exact zeros, is C17_entropy_chain_full above (Proofs/StretchEntropyFull.v: t |-> - t ln (max t eps) is the minimum of a linear
    and a concave function; supporting-line Jensen).  The earlier partial statements (entries >= eps; two tokens) are kept as corollaries.
